@@ -113,9 +113,11 @@ def r_c11_conv(ctx, rep):
     # ---- R-DATE-TABLE
     key = "datatype::ExcelDateTime|R-DATE-TABLE|"
     ymd = None
-    for c in walk_k(dt.body, "Call", "MethodCall"):
-        if (callee(c) or "").endswith("NaiveDate::from_ymd_opt"):
-            ymd = [lit_value(a) for a in c.get("args", [])]
+    from .kit import with_new_callees
+    for body_ in with_new_callees(F, dt):
+        for c in walk_k(body_, "Call", "MethodCall"):
+            if (callee(c) or "").endswith("NaiveDate::from_ymd_opt"):
+                ymd = [lit_value(a) for a in c.get("args", [])]
     if ymd == T["epoch_ymd"]:
         rep.holds("R-DATE-TABLE", key + "epoch", loc(dt.raw), "epoch %s" % ymd)
     else:
